@@ -66,6 +66,17 @@ impl Obs {
                     flipped[pos] ^= 0x20;
                     wrong.push(("tree_with_flipped_bit", flipped));
                 }
+                // the same tree padded with blank nodes: same tree hash, but not the tree (RFC 9420 §7.8: no trailing blanks)
+                {
+                    let mut r = crate::refmodel::tls::Reader::new(tree);
+                    if let Some(body) = r.opaque() {
+                        let mut b = body.to_vec();
+                        b.extend_from_slice(&[0, 0]);
+                        let mut padded = vec![];
+                        crate::refmodel::tls::put_opaque(&mut padded, &b);
+                        wrong.push(("tree_padded_with_blank_nodes", padded));
+                    }
+                }
                 for (name, tb) in wrong {
                     for wb in &info.welcome_bytes {
                         let party = &w.parties[*j];
@@ -310,7 +321,7 @@ pub fn run(ctx: &Ctx) -> ! {
          out of band, external commits (new party, rejoin, resync) with the tree inside or outside the GroupInfo, removed parties coming back through a Welcome with purged or un-purged storage, every \
          third party using last-resort key packages. Oracle: N-way agreement incl. every joiner and cross-decryption right after the join; the first joiner immediately builds a commit that all accept; \
          the joiner's first write_to_storage removes exactly the used key package (none if last-resort), a second write removes nothing more; mismatches must fail: a Welcome given to a party it was not \
-         made for, the previous epoch's tree, a truncated or bit-flipped tree, an external commit built on the previous epoch's GroupInfo (rejected by every member). \
+         made for, the previous epoch's tree, a truncated, bit-flipped or blank-padded tree, an external commit built on the previous epoch's GroupInfo (rejected by every member). \
          Non-trivial = joiners entering a tree with an interior blank or unmerged leaves, several joiners at once, or a returning member.",
         &hp,
         spec,
